@@ -90,7 +90,8 @@ fn generate(rng: &mut Rng) -> C15Sc {
     let secret = Some(b"proxy-secret".to_vec());
     let lbs = ["10.0.0.1", "10.0.0.2", "2001:db8:aa::1"];
     let nlb = rng.range(1, 3) as usize;
-    let sources = ["198.51.100.1", "198.51.100.2", "2001:db8:1::5", "10.0.0.1", "203.0.113.77"];
+    // (the IPv4-mapped and IPv4-compatible forms are addresses of their own, like the loopback)
+    let sources = ["198.51.100.1", "198.51.100.2", "2001:db8:1::5", "10.0.0.1", "203.0.113.77", "::ffff:198.51.100.1", "::198.51.100.2", "::1"];
     let nsrc = rng.range(1, sources.len() as u64) as usize;
     let slow_headers = proxy.is_some() && rng.chance(1, 3);
     let nmax = if rng.chance(1, 4) { 40 } else { 12 };
